@@ -73,6 +73,10 @@ class UserError(Exception):
     """the 'other exception class' f raises / its Deferred fails with"""
 
 
+class FatalError(BaseException):
+    """a user exception that is NOT an Exception (like SystemExit, KeyboardInterrupt, asyncio.CancelledError)"""
+
+
 class Sel:
     """A selectable that never becomes readable (backed by a socket pair on the real reactor)."""
 
@@ -133,7 +137,8 @@ class World:
         self.spinner = self.sp.Spinner(self.reactor)
 
     def concrete(self):
-        return {"None": None, "zero": 0, "v1": ["v1"], "v2": ["v2"], "e1": ValueError("e1"), "e2": UserError("e2")}
+        return {"None": None, "zero": 0, "v1": ["v1"], "v2": ["v2"], "e1": ValueError("e1"), "e2": UserError("e2"),
+                "b1": SystemExit(3), "b2": FatalError("b2"), "b3": KeyboardInterrupt()}  # fmt: skip
 
     # -- one run() call -------------------------------------------------------
     def run_once(self, h):
@@ -238,7 +243,9 @@ class World:
         except Stuck as ex:
             obs_obj = ex
             cls, val = "Stuck", "-"
-        except Exception as ex:
+        except BaseException as ex:  # f's SystemExit / KeyboardInterrupt / BaseException come out of run() too
+            if not isinstance(ex, Exception) and not any(ex is vals[b] for b in ("b1", "b2", "b3")):
+                raise  # not ours (a real Ctrl-C)
             obs_obj = ex
             named = {sp.TimeoutError: "TimeoutError", sp.NoResultError: "NoResultError",
                      sp.StaleJunkError: "StaleJunkError", sp.ReentryError: "ReentryError"}  # fmt: skip
@@ -246,7 +253,7 @@ class World:
                 cls, val = named[type(ex)], "-"
             else:
                 cls, val = "exception", "?" + type(ex).__name__
-                for sym in ("e1", "e2"):
+                for sym in ("e1", "e2", "b1", "b2", "b3"):
                     if ex is vals[sym]:
                         val = sym
         finally:
@@ -382,7 +389,8 @@ def real_sample(behaviours, seed):
             continue
         if s["busyAt"] != 99 and (s["k"] not in ("dfire", "dfail") or s["d"] <= s["T"] or s["stopAt"] != 99):
             continue  # busy: only "the Deferred fires/fails after the timeout, in the same iteration"
-        key = (s["k"], "|".join(sorted(a["cls"] for a in h[0]["allowed"])), bool(s["extra"]), s["sel"], s["busyAt"] != 99)
+        key = (s["k"], s["v"][:1] == "b", "|".join(sorted(a["cls"] for a in h[0]["allowed"])), bool(s["extra"]), s["sel"],
+               s["busyAt"] != 99)  # fmt: skip
         classes.setdefault(key, []).append(h)
     return [v[seed % len(v)] for _, v in sorted(classes.items())]
 
@@ -433,7 +441,8 @@ def run(tier, pid="C15"):
         "on a private SelectReactor). Non-trivial = Deferred-returning f competing with timeout/stop, or leftovers in "
         "the reactor, or a second run; distinct by scenario.",
     )
-    rep.assume("f raises / fails with Exception subclasses only (BaseException from f is outside the property)")
+    rep.assume("f raises / its Deferred fails with Exceptions and with BaseExceptions that are not Exceptions (SystemExit, "
+               "KeyboardInterrupt, a user BaseException subclass): Twisted's maybeDeferred turns all of them into failures")  # fmt: skip
     rep.assume("on exact time ties either neighbouring outcome class is accepted")
     rep.assume("virtual reactor = twisted.internet.task.Clock + run/crash/stop (harness/vreactor.py); its run() installs "
                "handlers for the three signals like a real reactor when inst=true")  # fmt: skip
